@@ -126,6 +126,28 @@ func c14CaseLits(body ast.Node, tag string) ([]string, error) {
 	return out, nil
 }
 
+// operator of the first binary comparison `x <op> …` (x an identifier) inside body
+func c14CmpOp(body ast.Node, x string) (string, error) {
+	op := ""
+	ast.Inspect(body, func(n ast.Node) bool {
+		be, ok := n.(*ast.BinaryExpr)
+		if !ok || op != "" {
+			return true
+		}
+		if id, ok := be.X.(*ast.Ident); ok && id.Name == x {
+			switch be.Op {
+			case token.GTR, token.GEQ, token.LSS, token.LEQ, token.EQL, token.NEQ:
+				op = be.Op.String() + " " + exprString(be.Y)
+			}
+		}
+		return true
+	})
+	if op == "" {
+		return "", fmt.Errorf("no comparison on %s", x)
+	}
+	return op, nil
+}
+
 // local constant of a function
 func c14LocalConst(p *Pkg, fd *ast.FuncDecl, name string) (string, error) {
 	var res string
@@ -242,6 +264,39 @@ func init() {
 			return "", err
 		}
 		b.WriteString("def contentLengthMethods : List String := " + c14StringList(l3) + "\n")
+
+		// SETTINGS_MAX_HEADER_LIST_SIZE: the two comparisons and the server's advertised value
+		rmf, err := h2.Func("Framer.readMetaFrame")
+		if err != nil {
+			return "", err
+		}
+		op, err := c14CmpOp(rmf.Body, "size")
+		if err != nil {
+			return "", err
+		}
+		b.WriteString("/-- `size <op> remainSize` in the emit callback of readMetaFrame (truncation). -/\n")
+		b.WriteString("def readMetaFrameSizeCmp : String := " + c14LeanString(op) + "\n")
+		op, err = c14CmpOp(eh.Body, "hlSize")
+		if err != nil {
+			return "", err
+		}
+		b.WriteString("def encodeHeadersSizeCmp : String := " + c14LeanString(op) + "\n")
+		adj, err := h2.Func("adjustHTTP1MaxHeaderSize")
+		if err != nil {
+			return "", err
+		}
+		for _, c := range []string{"perFieldOverhead", "typicalHeaders"} {
+			v, err := c14LocalConst(h2, adj, c)
+			if err != nil {
+				return "", err
+			}
+			b.WriteString("def " + c + " : Nat := " + v + "\n")
+		}
+		src0, err := c14FuncSrc(h2, "adjustHTTP1MaxHeaderSize")
+		if err != nil {
+			return "", err
+		}
+		b.WriteString("def adjustHTTP1MaxHeaderSizeSrc : String := " + c14LeanString(src0) + "\n")
 
 		// bodyAllowedForStatus: printed source (small pure function)
 		src, err := c14FuncSrc(h2, "bodyAllowedForStatus")
